@@ -32,7 +32,7 @@ def gen_T(rng, depth, d):
     if op in ('add', 'sub', 'mul'):
         return [op, gen_T(rng, depth - 1, d), gen_T(rng, depth - 1, d)]
     if op in ('smul', 'rsmul', 'sadd', 'rsub', 'sdiv'):
-        return [op, gen_T(rng, depth - 1, d), rng.choice([2.0, -0.5, 1.5, 3])]
+        return [op, gen_T(rng, depth - 1, d), rng.choice([2.0, -0.5, 1.5, 3, 0, 0.0] if op in ('sadd', 'rsub') else [2.0, -0.5, 1.5, 3])]
     if op == 'mprod':
         return [op, gen_T(rng, depth - 1, d), rng.randrange(d)]
     if op == 'kronnone':
